@@ -1072,6 +1072,15 @@ func (fr *frame) ifConvert(c *sym.Term, tBlock, tPrev, fBlock, fPrev *ssa.BasicB
 	vals := make([]value, len(phis))
 	for i, phi := range phis {
 		vt, vf := fr.get(phi.Edges[kt]), fr.get(phi.Edges[kf])
+		// never turn concrete word-sized integers (positions, lengths, counters) into symbolic ones:
+		// indexing and slicing would have to fork on them later, at a much higher price
+		if k := basicKind(phi.Type()); kindBits(k) == 64 {
+			_, st := vt.(sv)
+			_, sf := vf.(sv)
+			if !st || !sf {
+				return false
+			}
+		}
 		m, ok := iteVals(c, vt, vf)
 		if !ok {
 			return false
